@@ -129,7 +129,7 @@ def run (t : Tier) : Emit Unit := do
       let idxs := (ps.zipIdx.filter fun (p, _) => p.header.pid == pid).map (·.2)
       if idxs.length < 4 then continue
       let start ← liftGen (randBelow (idxs.length - 2))
-      let len ← liftGen (randRange 1 (min 15 (idxs.length - start - 1)))
+      let len ← liftGen (randRange 1 (min 14 (idxs.length - start - 1)))
       let drop := (idxs.drop start).take len
       let del := (ps.zipIdx.filter fun (_, i) => !drop.contains i).map (·.1)
       let us := m.units.filter (·.pid == pid)
@@ -143,6 +143,71 @@ def run (t : Tier) : Emit Unit := do
       let pmts := if pid = 0 then (m.units.filter (fun u => u.psi && u.pid ≥ 0x1000)).map (·.pid) |>.eraseDups else []
       let mm := if pid = 0 then 1000 else maxMissing + (us.getD uFirst default).data.length
       emit "C06" { c with args := c.args ++ [("expect", jstr (jesc expAll)), ("faultPids", jarr ((pid :: pmts).map jnat)), ("maxMissing", jnat mm)] }
+  -- bursts of every length 1..14 inside one long unit (>= 18 packets) that is followed by further units of the PID
+  for _ in [0:(if t.quick then 1 else 6)] do
+    let mut long : TSUnit := default
+    let mut fuel := 40
+    while fuel > 0 do
+      fuel := fuel - 1
+      let u ← liftGen (genPESUnit 0x100 6000)
+      if u.chunks.length ≥ 18 then
+        long := u
+        fuel := 0
+    if long.chunks.length < 18 then continue
+    let u2 ← liftGen (genPESUnit 0x100 300)
+    let u3 ← liftGen (genPESUnit 0x100 300)
+    let o1 ← liftGen (genPESUnit 0x101 400)
+    let o2 ← liftGen (genPESUnit 0x101 400)
+    let units := [long, u2, u3, o1, o2]
+    let per := perPID units
+    let sched ← liftGen (shuffle ((per.map fun (pid, pk, _) => List.replicate pk.length pid).flatten))
+    let m : StreamModel := { units := units, schedule := sched }
+    let ps := m.packets
+    let expAllL := showPerPID m.expected 0 "eof" true
+    let idxs := (ps.zipIdx.filter fun (p, _) => p.header.pid == 0x100).map (·.2)
+    -- 15 lost packets make the next one carry the counter of the last one received: it is indistinguishable from a
+    -- legal duplicate (first clause of C06), so no receiver can see that gap; lengths 1..14
+    for len in [1:15] do
+      for start in [1, 2] do
+        let drop := (idxs.drop start).take len
+        let del := (ps.zipIdx.filter fun (_, i) => !drop.contains i).map (·.1)
+        let lastDropped := drop.getLast?.getD 0
+        let clsB := if looksLikeUnit (fragmentAfter ps lastDropped) false then "headless-fragment-looks-like-unit" else ""
+        let c := demuxCase (bytesOf del) { view := .perpid, noErr := true } none none "loss-burst-every-length" clsB "loss"
+        emit "C06" { c with args := c.args ++ [("expect", jstr (jesc expAllL)), ("faultPids", jarr [jnat 0x100]), ("maxMissing", jnat 1)] }
+  -- loss on an SI PID whose units span several packets (the remainder of a unit is then usually unparseable: NextData
+  -- reports an error), while long units are in progress on two PES PIDs: those are unaffected
+  for i in [0:(if t.quick then 3 else 15)] do
+    let kind := [2, 3, 4].getD (i % 3) 2
+    let pidSI := [0x11, 0x10, 0x12].getD (i % 3) 0x11
+    let secsA ← liftGen (genList 1 (genSectionOfKind kind true))
+    let secsB ← liftGen (genList 1 (genSectionOfKind kind true))
+    let a0 ← liftGen (mkPSIUnit pidSI secsA)
+    let b0 ← liftGen (mkPSIUnit pidSI secsB)
+    let a ← liftGen (manyChunks a0)
+    let b ← liftGen (manyChunks b0)
+    let p1 ← liftGen (genPESUnit 0x100 2000)
+    let p2 ← liftGen (genPESUnit 0x100 300)
+    let q1 ← liftGen (genPESUnit 0x101 2000)
+    let q2 ← liftGen (genPESUnit 0x101 300)
+    let units := [a, b, p1, p2, q1, q2]
+    let per := perPID units
+    let sched ← liftGen (shuffle ((per.map fun (pid, pk, _) => List.replicate pk.length pid).flatten))
+    let m : StreamModel := { units := units, schedule := sched }
+    let ps := m.packets
+    let expAllS := showPerPID m.expected 0 "eof" true
+    let idxs := (ps.zipIdx.filter fun (p, _) => p.header.pid == pidSI).map (·.2)
+    let nA := a.chunks.length
+    for j in [0:idxs.length - 1] do
+      if t.quick && j % 3 != 0 && j != nA then continue
+      let k := idxs.getD j 0
+      let del := ps.take k ++ ps.drop (k + 1)
+      let isFirstOfUnit := j = 0 || j = nA
+      let clsS := if looksLikeUnit (fragmentAfter ps k) true then "headless-fragment-looks-like-unit" else ""
+      let c := demuxCase (bytesOf del) { view := .perpid, noErr := true } none none "loss-on-si-pid" clsS "loss"
+      let mm := (a.data.length + b.data.length)
+      let _ := isFirstOfUnit
+      emit "C06" { c with args := c.args ++ [("expect", jstr (jesc expAllS)), ("faultPids", jarr [jnat pidSI]), ("maxMissing", jnat mm)] }
   -- bounded-exhaustive packet sequences over the 8-letter alphabet on a PES PID, through the pool
   let len := if t.quick then 4 else 6
   for n in [0:8 ^ len] do
